@@ -310,3 +310,52 @@ func Verif_C15_mp_capability() {
 	verifAssert("mp-safi", c.Value[3] == safi)
 	verifCover("mp-cap")
 }
+
+// (e) encoders are functions of their argument: an encoding already returned is not changed by later
+// encodings, and concurrent encoders share no mutable state (happens-before race detection)
+func Verif_C15_encodings_are_independent() {
+	verifEngineOnly()
+	verifRaceDetect(true)
+	verifNote("sequence: KEEPALIVE, NOTIFICATION (symbolic code/subcode, data 0..8 bytes), OPEN (symbolic fixed fields, one capability with 0..4 value bytes), NOTIFICATION again, KEEPALIVE again are encoded one after the other, then every returned byte string is decoded again and must still give its value; then two goroutines encode a NOTIFICATION and a KEEPALIVE/OPEN concurrently under happens-before race detection (a race means the encoders share mutable state, so a round trip can fail under concurrency)")
+	k1, _ := keepAliveMessage{}.encode()
+	d1 := verifBuf("d1", 0, 8)
+	n1 := &Notification{Code: verifU8("c1"), Subcode: verifU8("s1"), Data: d1}
+	e1, _ := n1.encode()
+	cv := verifBuf("capval", 0, 4)
+	o := &openMessage{version: verifU8("ver"), asn: verifU16("asn"), holdTime: verifU16("hold"), bgpID: verifU32("id"),
+		optionalParams: []optionalParam{&capabilityOptionalParam{capabilities: []Capability{{Code: verifU8("capcode"), Value: cv}}}}}
+	eo, oerr := o.encode()
+	d2 := verifBuf("d2", 0, 8)
+	n2 := &Notification{Code: verifU8("c2"), Subcode: verifU8("s2"), Data: d2}
+	e2, _ := n2.encode()
+	k2, _ := keepAliveMessage{}.encode()
+	verifAssert("open-encodes", oerr == nil)
+	c15HeaderOK("first-keepalive-still", k1, keepAliveMessageType, 0)
+	c15HeaderOK("second-keepalive", k2, keepAliveMessageType, 0)
+	c15HeaderOK("first-notification-still", e1, notificationMessageType, 2+len(d1))
+	c15HeaderOK("second-notification", e2, notificationMessageType, 2+len(d2))
+	c15HeaderOK("open-still", eo, openMessageType, 10+2+2+len(cv))
+	verifAssume(len(e1) >= 21 && len(e2) >= 21)
+	verifAssert("first-notification-fields-still", e1[19] == n1.Code && e1[20] == n1.Subcode)
+	verifAssertBytesEq("first-notification-data-still", e1[21:], d1)
+	verifAssert("second-notification-fields", e2[19] == n2.Code && e2[20] == n2.Subcode)
+	verifAssertBytesEq("second-notification-data", e2[21:], d2)
+	// concurrent encoders
+	done := make(chan []byte, 2)
+	go func() {
+		b, _ := n1.encode()
+		done <- b
+	}()
+	go func() {
+		var b []byte
+		if verifChoose("other-encoder", 2) == 0 {
+			b, _ = keepAliveMessage{}.encode()
+		} else {
+			b, _ = o.encode()
+		}
+		done <- b
+	}()
+	<-done
+	<-done
+	verifCover("independent")
+}
